@@ -10,9 +10,10 @@ than `max_length` into pieces of `max_length − 1` characters.  The full statem
 (tokens: `SET n = `, then one per maximal run, `a THRU b` for two or more ids, all but the last followed by `", "`; the
 condition is decidable).  Proved here: `⟸` for every input (`set_roundtrip`), and `⟹` whenever the token that does not
 fit is the HEAD token with at least two columns missing — then `rdsets` returns the EMPTY dictionary
-(`set_header_split_fails`).  Not proved: `⟹` for a cut item token and for the boundary `len(head) = max_length + 1`
-(the line that ends inside the token closes the set early or fails to parse); there the equivalence is checked on the
-real code for every `max_length` 2 … 26 (oracle) and the cut lines are tied character for character (stream `wtset`).
+(`set_header_split_fails`).  The remaining cases of `⟹` — a cut item token and the boundary
+`len(head) = max_length + 1` — and the full `set_roundtrip_iff` are in `Props/C13SetIff.lean`; the equivalence is also
+checked on the real code for every `max_length` 2 … 26 (oracle) and the cut lines are tied character for character
+(stream `wtset`).
 Ids may be unsorted and repeated (`thru_roundtrip` holds for every list); `EXCEPT` is never written by `wtset` and is
 not supported by `rdsets` (after a THRU it is silently ignored — tied by the reader stream, reported).
 -/
@@ -30,7 +31,8 @@ theorem set_header_split_fails (setid : Int) (ids : List Int) (maxLen : Nat) (hs
 
 /-- **`set_roundtrip_iff`, restricted** (full statement: the equivalence for every `max_length ≥ 2`): when the item
 tokens fit and the head token is not exactly one column too long, the round trip holds IF AND ONLY IF every token
-fits `max_length`.  Missing for the full statement: a cut item token, and `len("SET n = ") = max_length + 1`. -/
+fits `max_length`.  Missing here for the full statement: a cut item token, and `len("SET n = ") = max_length + 1` —
+both proved in `Props/C13SetIff.lean` (`set_roundtrip_iff`, no such hypothesis). -/
 theorem set_roundtrip_iff_partial (setid : Int) (ids : List Int) (maxLen : Nat) (hs : 0 ≤ setid) (hne : ids ≠ [])
     (hn : ∀ x ∈ ids, 0 ≤ x) (h2 : 2 ≤ maxLen) (hbody : ∀ t ∈ setBody (compress ids), t.length ≤ maxLen)
     (hgap : (Bulk.txt "SET " ++ dec setid ++ Bulk.txt " = ").length ≠ maxLen + 1) :
